@@ -399,6 +399,26 @@ fn handle(line: &str) -> String {
                         }
                     }
                 }
+                "verify_script" => {
+                    b = b.verify_script(rpm::Scriptlet::new("vt").flags(rpm::ScriptletFlags::from_bits_retain(5)).prog(vec!["p"]));
+                    let pkg = match b.build() { Ok(p) => p, Err(e) => return format!("build-err {:?}", e).replace(' ', "_") };
+                    let h = &pkg.metadata.header;
+                    if h.get_entry_data_as_string(rpm::IndexTag::RPMTAG_VERIFYSCRIPT).ok() != Some("vt") { bad.push("text".into()); }
+                    if h.get_entry_data_as_u32(rpm::IndexTag::RPMTAG_VERIFYSCRIPTFLAGS).ok() != Some(5) { bad.push("flags".into()); }
+                    if h.get_entry_data_as_string_array(rpm::IndexTag::RPMTAG_VERIFYSCRIPTPROG).ok().map(|v| v.to_vec()) != Some(vec!["p".to_string()]) { bad.push("prog".into()); }
+                }
+                "changelog" => {
+                    b = b.add_changelog_entry("a1", "t1", 3u32).add_changelog_entry("a2", "t2", 2u32).add_changelog_entry("a3", "t3", 5u32);
+                    let pkg = match b.build() { Ok(p) => p, Err(e) => return format!("build-err {:?}", e).replace(' ', "_") };
+                    match pkg.metadata.get_changelog_entries() {
+                        Ok(v) => {
+                            let got: Vec<(String, u64, String)> = v.iter().map(|c| (c.name.clone(), c.timestamp, c.description.clone())).collect();
+                            let want = vec![("a1".to_string(), 3u64, "t1".to_string()), ("a2".to_string(), 2u64, "t2".to_string()), ("a3".to_string(), 5u64, "t3".to_string())];
+                            if got != want { bad.push(format!("{:?}", got).replace(' ', "")); }
+                        }
+                        Err(_) => bad.push("err".into()),
+                    }
+                }
                 "deps" => {
                     for j in 0..2 {
                         b = b.requires(dep(0, j)).provides(dep(1, j)).obsoletes(dep(2, j)).conflicts(dep(3, j)).recommends(dep(4, j)).suggests(dep(5, j)).enhances(dep(6, j)).supplements(dep(7, j));
@@ -498,6 +518,28 @@ fn handle(line: &str) -> String {
                     _ => "differs: entries".to_string(),
                 },
             }
+        }
+        "sign_time" => {
+            // build_and_sign with a recording signer and a source date in the past: answers ok <t> | late <t>
+            #[derive(Debug)]
+            struct RecSigner(std::sync::Arc<std::sync::Mutex<Vec<u32>>>);
+            impl rpm::signature::Signing for RecSigner {
+                type Signature = Vec<u8>;
+                fn sign(&self, _data: impl std::io::Read, t: rpm::Timestamp) -> Result<Vec<u8>, rpm::Error> {
+                    self.0.lock().unwrap().push(u32::from(t));
+                    Ok(b"SIG".to_vec())
+                }
+                fn algorithm(&self) -> rpm::signature::AlgorithmType { rpm::signature::AlgorithmType::RSA }
+            }
+            let sd: u32 = 1_600_000_000;
+            let times = std::sync::Arc::new(std::sync::Mutex::new(Vec::new()));
+            let r = std::panic::catch_unwind(std::panic::AssertUnwindSafe(|| {
+                rpm::PackageBuilder::new("n", "1", "MIT", "noarch", "s").compression(rpm::CompressionType::None).source_date(sd).build_and_sign(RecSigner(times.clone())).map(|_| ())
+            }));
+            let ts = times.lock().unwrap().clone();
+            if r.is_err() && ts.is_empty() { "panic".to_string() }
+            else if ts.iter().any(|t| *t > sd) { format!("late {:?}", ts).replace(' ', "") }
+            else { format!("ok {:?}", ts).replace(' ', "") }
         }
         "wsink" => {
             // <k> <fail_at> <intr_at> <package|metadata>: write a freshly built package into a scripted sink; every failure position is tried
